@@ -75,7 +75,10 @@ def check_same_source(ctx, F):
                 if e['kind'] == 'loop_enter' and writes_in_loop:
                     for k, v in e['pre'].items():
                         if isinstance(v, tuple) and v and v[0] == 'call' and str(v[1]).endswith('IntoIterator::into_iter'):
-                            emitters.append(('for-loop that writes', v[2][0], ''))
+                            src = v[2][0]
+                            if isinstance(src, tuple) and src and src[0] == 'call' and str(src[1]).endswith('Iterator::enumerate') and src[2]:
+                                src = src[2][0]       # `.enumerate()` only numbers the items
+                            emitters.append(('for-loop that writes', src, ''))
         if emitters:
             k2 = 'R4/chunk-order/' + b.defpath
             role2 = 'state chunks are emitted least significant first (the chunker is consumed through .rev())'
